@@ -24,7 +24,7 @@ ASSUMPTIONS = ['shadow numpy interpreter is the reference (self-tested; cross-ch
                'programs whose simplification does not terminate are C01 events and are skipped here (counted)',
                'maxprocs>1 configurations only for programs with an outer loop, sampled']
 BUDGET_S = {'quick': 120, 'thorough': 1600}
-NCASES = {'quick': 2200, 'thorough': 60000}
+NCASES = {'quick': 1500, 'thorough': 60000}
 CHUNK = 40
 
 # (name, simplify, optimize, cache, stats, nprocs, debug_evalf, ncalls)
@@ -55,6 +55,7 @@ def setup():
     evmon.install_step_counter()
     evmon.install_rule_counters()
     evmon.install_script_capture()
+    evmon.install_uninitialised_memory_poison()
     warnings.simplefilter('ignore')
 
 
@@ -150,6 +151,17 @@ def check_case(case, seed_key, res, tier):
             v, det = tolerance.compare(g, rf, scale)
             res.count('compare/' + v)
             if v == tolerance.VIOLATION:
+                # re-run the same configuration: a mismatch that does not reproduce is recorded as such (with the case), not alarmed
+                try:
+                    again = run_config(cfg, outs, av)
+                    v2, det2 = tolerance.compare(again[j], rf, scale)
+                except Exception as e:
+                    v2, det2 = tolerance.VIOLATION, f'second run raised {type(e).__name__}'
+                if v2 != tolerance.VIOLATION:
+                    res.count('nonreproducible_mismatch')
+                    res.note(f'NON-REPRODUCIBLE mismatch config {name} output {j}: {det} | case index {seed_key[-1]} | ' + evgen.skeleton(case)[:200])
+                    res.sample(dict(nonreproducible=True, config=name, index=seed_key[-1], desc=evgen.describe(case), detail=det), cap=6)
+                    continue
                 res.violation('compiled function returns a different value', pack(case, av, name), f'config {name}: output {j}: {det}',
                               mechanism=evfind.classify_c02(case, name, None, det))
                 return
@@ -198,6 +210,7 @@ def run_units(units, ctx):
             check_case(case, (ctx.seed, 'c02', i), res, ctx.tier)
             if i % 499 == 0:
                 res.sample(dict(index=i, desc=evgen.describe(case)))
+    res.count('poisoned_allocations', evmon.POISON_COUNT[0])
     for h in evmon.SCRIPT_HASHES:
         res.add('scripts', h)
     for k, v in evmon.SCRIPT_FEATURES.items():
@@ -230,7 +243,8 @@ def finalize(m, tier, seed):
                optimisation_rules_fired={k[14:]: v for k, v in c.items() if k.startswith('optrule_fired/')},
                intermediate_observations=c.get('intermediate_observations', 0), skipped_c01_event=c.get('skipped_c01_event', 0),
                out_of_domain=c.get('out_of_domain', 0), rejected_constructions=c.get('rejected_constructions', 0),
-               inconclusive_wall=c.get('inconclusive_wall', 0), skipped_deadline=c.get('skipped_deadline', 0))
+               inconclusive_wall=c.get('inconclusive_wall', 0), skipped_deadline=c.get('skipped_deadline', 0),
+               nonreproducible_mismatch=c.get('nonreproducible_mismatch', 0), poisoned_allocations=c.get('poisoned_allocations', 0))
     inc = None
     from vlib.runner import scaled
     if cov['evaluations'] < 0.5 * scaled(NCASES[tier]):
@@ -239,6 +253,8 @@ def finalize(m, tier, seed):
         inc = 'observer hook never fired (NUTILS_VERIF guard off or hook missing)'
     elif not all(cov['script_features'].get(k) for k in ('iadd_out', 'add_at', 'for', 'first_run')):
         inc = 'generated scripts never showed one of: in-place add, add.at, loops, first_run caching'
+    elif cov['nonreproducible_mismatch']:
+        inc = f"{cov['nonreproducible_mismatch']} mismatch(es) did not reproduce on an immediate second run (nondeterminism in the harness or the library; see notes)"
     elif cov['configs'].get('par3', 0) < 5:
         inc = 'parallel configuration barely exercised'
     return dict(coverage=cov, inconclusive=inc)
